@@ -1,4 +1,5 @@
 import MQ.Inv.RingMain
+import MQ.Inv.PinMain
 /-!
 # C04 — consumers only ever observe complete, live values
 `cont i` is the value a slot holds (changed only by the value-write step of the thread that claimed a
@@ -44,5 +45,53 @@ theorem C04_write_needs_claim_partial (N : Nat) (bcast : Bool) (wait : WaitK) (f
   have I := rinv_goodRun r (rinv_init N bcast wait fut hN)
   obtain ⟨a, b, c, d⟩ := claim_inwin I t h (by rw [hpc]; rfl)
   exact ⟨a, b, d, c⟩
+
+/-! ### the pin protocol of shared broadcast streams (`PinInv`, `MQ/Inv/Pin*.lean`)
+
+Executions: `NRun` — every label of every thread, any number of threads, handles and streams, with only the
+exclusions of the two open findings (F1, F12) and without the two futures handle conversions. Broadcast queues
+(`bcast = true`; a move-out queue has no clone and no pin). These theorems are about the code *after* the repair of
+F16: with the old order of the two loads in `try_recv` the statement is false, and the attempt to prove it is what
+exhibited the failing schedule. -/
+
+/-- C04 (no torn read): the ghost flag `torn` — set by the model when the slot a consumer is cloning (or viewing)
+differs from what it read — is never set. -/
+theorem C04_no_torn_read_partial (N : Nat) (wait : WaitK) (fut : Bool) (hN : 0 < N) (ls : List Label) (σ : St)
+    (r : NRun (init N true wait fut) ls σ) : σ.torn = false :=
+  (pall_nrun r rfl (pall_init N wait fut hN)).1.p.torn
+
+/-- C04 (clone sees what was read): whenever a consumer is about to clone position `p` (program point `rc`), the
+slot still holds exactly the value it read — whether it holds a pin (shared stream) or is the stream's only
+consumer (no pin). -/
+theorem C04_clone_reads_stable_value_partial (N : Nat) (wait : WaitK) (fut : Bool) (hN : 0 < N) (ls : List Label) (σ : St)
+    (r : NRun (init N true wait fut) ls σ) (t p : Nat) (sg : Bool) (c : Option Nat)
+    (hpc : (σ.th t).pc = .rc p sg c) : σ.cont (p % σ.N) = c :=
+  (pall_nrun r rfl (pall_init N wait fut hN)).1.p.stable t p sg c hpc
+
+/-- C04 (pin count): the pin counter of every slot equals the number of consumers that are inside a pinned
+section on that slot — it never under- or overflows, and a producer that reads zero really is alone. -/
+theorem C04_pin_count_exact_partial (N : Nat) (wait : WaitK) (fut : Bool) (hN : 0 < N) (ls : List Label) (σ : St)
+    (r : NRun (init N true wait fut) ls σ) (j : Nat) :
+    ∃ l : List Nat, l.Nodup ∧ (∀ t, t ∈ l ↔ pinned σ t j) ∧ σ.ref j = l.length :=
+  (pall_nrun r rfl (pall_init N wait fut hN)).1.p.cnt j
+
+/-- C04 (writer / reader exclusion): a producer that has passed the pin check for position `h` and can still
+claim it (or has claimed it and not yet published) and a consumer inside a validated pinned read of position `p`
+are never on the same slot. -/
+theorem C04_writer_reader_exclusion_partial (N : Nat) (wait : WaitK) (fut : Bool) (hN : 0 < N) (ls : List Label) (σ : St)
+    (r : NRun (init N true wait fut) ls σ) (w t h p : Nat)
+    (hw : (σ.th w).pc.wPos = some h) (hl : (σ.th w).pc.isHd = true → σ.head = h)
+    (hr : (σ.th t).pc.rdPos = some p) : h % σ.N ≠ p % σ.N :=
+  fun e => (pall_nrun r rfl (pall_init N wait fut hN)).1.p.excl w t h p hw hl hr e
+
+/-- C04 (the unpinned read is safe): a consumer that skipped the pin because it was its stream's only consumer
+works on the stream's current position. -/
+theorem C04_unpinned_reader_is_current_partial (N : Nat) (wait : WaitK) (fut : Bool) (hN : 0 < N) (ls : List Label) (σ : St)
+    (r : NRun (init N true wait fut) ls σ) (t p : Nat) (h : (σ.th t).pc.sgPos = some p) : σ.pos (σ.th t).s = p :=
+  (pall_nrun r rfl (pall_init N wait fut hN)).1.p.sgp t p h
+
+/-- the premises are satisfiable: the empty execution, and a first step -/
+example : NRun (init 4 true .busy false) [.call 0 .tryRecv 1 0 0 0] (step (init 4 true .busy false) (.call 0 .tryRecv 1 0 0 0)) :=
+  .cons rfl (.nil _)
 
 end MQ
